@@ -334,6 +334,11 @@ class from_http_server(Source):
             source = self
 
             async def post(self):
+                if self.source.stopped:
+                    # stop() makes the server take no new connections; this
+                    # request came over one that was open already
+                    self.set_status(503)
+                    return
                 await asyncio.gather(*self.source._emit(self.request.body))
                 self.write('OK')
 
